@@ -243,3 +243,47 @@ Definition spec (R : json -> json -> Prop) (ts : list tmpl) (outs : list outcome
 
 Definition spec_b (ts : list tmpl) (outs : list outcome) (ps0 : params) (o : list event * result) : bool :=
   calls_b outs (fst o) && result_b outs (snd o) && propagation_b ts outs ps0 (fst o).
+
+(* ---- syntactically simple placeholders: path segments of the configuration grammar
+   [a-zA-Z0-9_-]: no '.', no brace, at least one segment ---- *)
+Definition seg_simple (s : string) : bool := negb (has_char "."%char s) && no_brace s.
+Definition path_simple (p : list string) : bool := negb (is_nil p) && forallb seg_simple p.
+Definition holes_simple (ts : list tmpl) : bool := forallb (fun jp => path_simple (snd jp)) (all_holes ts).
+
+
+(* ---- the exact behaviour of the model, also outside the property's hypothesis "the
+   referenced path exists" (C02_path_exact, C02_missing_intermediate_quirk) ---- *)
+(* what the loop finds for a placeholder {{.Resp<j>_<p>}} of backend i: the model's own
+   lookup (lookup_src, with the shallower-object quirk) and formatting (param_of) *)
+Definition hole_val (outs : list outcome) (i j : nat) (p : list string) : option string :=
+  if (j <? i)%nat then
+    match nth_error outs j with
+    | Some (OResp r) => option_map param_of (lookup_src (data_or_empty r) p)
+    | _ => None
+    end
+  else None.
+
+(* the text every segment turns into - total: an unresolved placeholder is left as it is
+   unless the endpoint parameters happen to have its key *)
+Definition seg_text_q (outs : list outcome) (ps0 : params) (i : nat) (s : seg) : string :=
+  match s with
+  | Lit s => s
+  | Hole j p =>
+      match hole_val outs i j p with
+      | Some v => v
+      | None => match lookup (dest_key j p) ps0 with Some v => v | None => ph (dest_key j p) end
+      end
+  | PHole k => match lookup k ps0 with Some v => v | None => ph k end
+  end.
+
+Definition seg_clean_q (outs : list outcome) (i : nat) (s : seg) : bool :=
+  match s with
+  | Lit s => no_open s
+  | Hole j p => no_brace (dest_key j p) &&
+                match hole_val outs i j p with Some v => no_open v | None => true end
+  | PHole k => no_brace k && negb (starts_resp k)
+  end.
+
+Definition tmpl_clean_q (outs : list outcome) (ps0 : params) (i : nat) (t : tmpl) : bool :=
+  forallb (seg_clean_q outs i) t && params_clean ps0.
+
